@@ -1,1 +1,107 @@
-From GV Require Import Pool.Model Pool.Observe Pool.Monitors.
+From GV Require Import Pool.Model Pool.Observe Pool.Monitors Pool.Reduce Pool.LegalRun Pool.KeyedFacts Pool.InvC08.
+
+(* C08: after every operation every entry of the stand-in table names a READY
+   pool connection; a Pick never changes the binding table; and with
+   fallback_to_ready, for a BOUND/UNBIND call carrying a bound key:
+   home channel READY: placed on the home channel's connection or not at all, and
+   the most recent picker does place it; home not READY, most recent picker: a
+   recorded stand-in is used again, otherwise -- unless no channel is READY, in
+   which case the call is not placed -- the call is placed on a READY connection,
+   which is recorded as the key's stand-in; home not READY, stale picker: if
+   placed, then on a READY connection.
+   For every map-iteration oracle.  Guards:
+   - the history is harness-legal (no operation is answered RBadOp);
+   - the pool holds fewer than 2^64 connections in every state of the run (the
+     evaluator's counters are uint64, see InvC01.evaluator_wraps). *)
+Theorem C08_holds : forall raw ops,
+  legal raw ops ->
+  Forall (fun s => Z.of_nat (length (b_scstates s)) < W64)%Z (run_states raw init_bal ops) ->
+  monitor P08 raw (observe init_bal) (run raw init_bal ops) = true.
+Proof. exact C08_holds_proof. Qed.
+Print Assumptions C08_holds.
+
+(* non-vacuity: fallback on, three channels; key 7 bound on channel 2; channel 2
+   leaves READY: the most recent picker picks stand-in 0 and sticks to it, a stale
+   picker uses it too; the stand-in fails: a new stand-in (1); nothing READY: not
+   placed; home READY again: every picker sends the key home *)
+Example c08_history :
+  let raw := Some (mkConfig 3 4 100 true 0 0 false
+                     [(1%N, mkMcfg BIND true); (2%N, mkMcfg BOUND true); (3%N, mkMcfg UNBIND true)]) in
+  let ops := [(OpResolver 1 CfgVal, []); (OpConnState 0 Ready, []); (OpConnState 1 Ready, [1; 0]%nat);
+              (OpConnState 2 Ready, [2; 1; 0]%nat);
+              (OpPick 2 1 true [] None false, []); (OpDone 0 DOk [7%N], []);
+              (OpPick 2 2 true [7%N] None false, []); (OpConnState 2 Connecting, []);
+              (OpPick 3 2 true [7%N] None false, []); (OpPick 3 2 true [7%N] None false, []);
+              (OpPick 1 2 true [7%N] None false, []); (OpConnState 0 TransientFailure, []);
+              (OpPick 4 2 true [7%N] None false, []); (OpConnState 1 TransientFailure, []);
+              (OpPick 5 2 true [7%N] None false, []); (OpPick 4 2 true [7%N] None false, []);
+              (OpConnState 2 Ready, []);
+              (OpPick 6 2 true [7%N] None false, []); (OpPick 4 3 true [7%N] None false, [])] in
+  map ev_ret (run raw init_bal ops) =
+    [RNone; RNone; RNone; RNone; RPicked 2; RNone; RPicked 2; RNone; RPicked 0; RPicked 0; RPicked 0; RNone;
+     RPicked 1; RNone; RNoSubConn; RNoSubConn; RNone; RPicked 2; RPicked 2] /\
+  map (fun s => b_fb s) (run_states raw init_bal ops) =
+    [[]; []; []; []; []; []; []; []; []; [(7, 0)]; [(7, 0)]; [(7, 0)]; []; [(7, 1)]; []; []; []; []; []; []]%N /\
+  legalb raw ops = true /\
+  monitor P08 raw (observe init_bal) (run raw init_bal ops) = true.
+Proof. vm_compute. repeat split; reflexivity. Qed.
+
+(* the monitor rejects a stand-in that is dropped although it is still READY (home 1 not READY, stand-in 0) *)
+Example c08_bad_not_sticky :
+  let cfg := Some (mkConfig 3 4 100 true 0 0 false [(2%N, mkMcfg BOUND true)]) in
+  let o1 := mkObs true 1 2 1 0 Ready [(7%N, 1%N)] [(7%N, 0%N)]
+                  [(0%N, Ready); (1%N, Connecting); (2%N, Ready)] [(0%N, 0%nat); (1%N, 1%nat); (2%N, 2%nat)]
+                  [mkSlot 0 0 1 0 0 false 0; mkSlot 1 1 0 0 0 false 0; mkSlot 2 0 0 0 0 false 0]
+                  4294967295 [] false (PSnap [0; 2]%nat) 1 0 true in
+  let o2 := mkObs true 1 2 1 0 Ready [(7%N, 1%N)] [(7%N, 0%N)]
+                  [(0%N, Ready); (1%N, Connecting); (2%N, Ready)] [(0%N, 0%nat); (1%N, 1%nat); (2%N, 2%nat)]
+                  [mkSlot 0 0 1 0 0 false 0; mkSlot 1 1 0 0 0 false 0; mkSlot 2 0 1 0 0 false 0]
+                  4294967295 [] false (PSnap [0; 2]%nat) 1 0 true in
+  mon_from P08 cfg (mkMstate [PSnap [0; 2]%nat] (Some (Ready, PSnap [0; 2]%nat)) [] [(7%N, 1%nat)] [] [] false
+                             (Some cfg) 0) o1
+    [mkEvent (OpPick 0 2 true [7%N] None false) [] (RPicked 2) [] (Some o2)] = false.
+Proof. vm_compute. reflexivity. Qed.
+
+(* ... a stand-in entry that names a connection which is not READY *)
+Example c08_bad_standin_not_ready :
+  let cfg := Some (mkConfig 2 4 100 true 0 0 false [(2%N, mkMcfg BOUND true)]) in
+  let o1 := mkObs true 1 1 1 0 Ready [(7%N, 1%N)] [(7%N, 0%N)]
+                  [(0%N, Ready); (1%N, Connecting)] [(0%N, 0%nat); (1%N, 1%nat)]
+                  [mkSlot 0 0 0 0 0 false 0; mkSlot 1 1 0 0 0 false 0]
+                  4294967295 [] false (PSnap [0%nat]) 1 0 true in
+  let o2 := mkObs true 1 0 2 0 Connecting [(7%N, 1%N)] [(7%N, 0%N)]
+                  [(0%N, Connecting); (1%N, Connecting)] [(0%N, 0%nat); (1%N, 1%nat)]
+                  [mkSlot 0 0 0 0 0 false 0; mkSlot 1 1 0 0 0 false 0]
+                  4294967295 [] false (PSnap []) 2 0 true in
+  mon_from P08 cfg (mkMstate [PSnap [0%nat]] (Some (Ready, PSnap [0%nat])) [] [(7%N, 1%nat)] [] [] false
+                             (Some cfg) 0) o1
+    [mkEvent (OpConnState 0 Connecting) [OUpdateState Connecting (PSnap [])] RNone [] (Some o2)] = false.
+Proof. vm_compute. reflexivity. Qed.
+
+(* ... a keyed call left unplaced by the most recent picker although a channel is READY *)
+Example c08_bad_not_placed :
+  let cfg := Some (mkConfig 2 4 100 true 0 0 false [(2%N, mkMcfg BOUND true)]) in
+  let o1 := mkObs true 1 1 1 0 Ready [(7%N, 1%N)] []
+                  [(0%N, Ready); (1%N, Connecting)] [(0%N, 0%nat); (1%N, 1%nat)]
+                  [mkSlot 0 0 0 0 0 false 0; mkSlot 1 1 0 0 0 false 0]
+                  4294967295 [] false (PSnap [0%nat]) 1 0 true in
+  mon_from P08 cfg (mkMstate [PSnap [0%nat]] (Some (Ready, PSnap [0%nat])) [] [(7%N, 1%nat)] [] [] false
+                             (Some cfg) 0) o1
+    [mkEvent (OpPick 0 2 true [7%N] None false) [] RNoSubConn [] (Some o1)] = false.
+Proof. vm_compute. reflexivity. Qed.
+
+(* ... and a Pick that rewrites the binding *)
+Example c08_bad_binding_changed :
+  let cfg := Some (mkConfig 2 4 100 true 0 0 false [(2%N, mkMcfg BOUND true)]) in
+  let o1 := mkObs true 1 1 1 0 Ready [(7%N, 1%N)] []
+                  [(0%N, Ready); (1%N, Connecting)] [(0%N, 0%nat); (1%N, 1%nat)]
+                  [mkSlot 0 0 0 0 0 false 0; mkSlot 1 1 0 0 0 false 0]
+                  4294967295 [] false (PSnap [0%nat]) 1 0 true in
+  let o2 := mkObs true 1 1 1 0 Ready [(7%N, 0%N)] [(7%N, 0%N)]
+                  [(0%N, Ready); (1%N, Connecting)] [(0%N, 0%nat); (1%N, 1%nat)]
+                  [mkSlot 0 0 1 0 0 false 0; mkSlot 1 1 0 0 0 false 0]
+                  4294967295 [] false (PSnap [0%nat]) 1 0 true in
+  mon_from P08 cfg (mkMstate [PSnap [0%nat]] (Some (Ready, PSnap [0%nat])) [] [(7%N, 1%nat)] [] [] false
+                             (Some cfg) 0) o1
+    [mkEvent (OpPick 0 2 true [7%N] None false) [] (RPicked 0) [] (Some o2)] = false.
+Proof. vm_compute. reflexivity. Qed.
